@@ -1,6 +1,7 @@
-"""C08 (partial): lexer primitives and string/comment lexers (erg_parser/lex.rs, token.rs). Verus on the real text:
-totality (no unwrap on None, no index/overflow panic), termination, and position bookkeeping (the column of the next token
-equals the number of source characters since the start of its line)."""
+"""C08: the whole token iterator of the lexer (erg_parser/lex.rs Iterator::next and every function it calls; token.rs Token::new).
+Verus on the real text: totality (no unwrap on None, no index/counter/column overflow), termination (a measure decreases at every
+yielded item), exact indentation bookkeeping (Indent/Dedent/EOF vs. the indent stack) and position bookkeeping (the column of the next
+token equals the number of source characters since the start of its line)."""
 import os
 import re
 
@@ -34,7 +35,7 @@ def lit_len(lit_src):
 
 def errors_r3(sn):
     for pat in (r'\bSelf::(str_line_break_error|invalid_escape_error|unclosed_string_error|unclosed_interpol_error)\s*\(',
-                r'\bLexError::(syntax_error|simple_syntax_error|feature_error)\s*\('):
+                r'\bLexError::(syntax_error|simple_syntax_error|feature_error|compiler_bug)\s*\('):
         while True:
             mask = make_mask(sn.text)
             m = re.search(pat, mask)
@@ -42,6 +43,19 @@ def errors_r3(sn):
                 break
             cp = match_close(mask, m.end() - 1)
             sn.replace_range('R3', m.start(), cp + 1, 'ext_lex_error()', "%s..) -> ext_lex_error()" % pat)
+
+
+def is_some_and_r4(sn):
+    """R4: `self.peek_X_ch().is_some_and(|c| E)` -> `(match self.peek_X_ch() { Some(c) => E, None => false })` (balanced parentheses)"""
+    while True:
+        mask = make_mask(sn.text)
+        m = re.search(r'self\s*\.peek_(cur|next)_ch\(\)\s*\.is_some_and\(\|c\|', mask)
+        if not m:
+            break
+        cp = match_close(mask, m.end() - len('|c|') - 1)
+        body = sn.text[m.end():cp].strip()
+        sn.replace_range('R4', m.start(), cp + 1, '(match self.peek_%s_ch() { Some(c) => %s, None => false })' % (m.group(1), body),
+                         "Option::is_some_and(|c| E) -> match { Some(c) => E, None => false }")
 
 
 def lexer_rewrites(sn):
@@ -60,7 +74,33 @@ def lexer_rewrites(sn):
     sn.rw('R4', r'self\.interpol_stack\.last\(\)\.unwrap\(\)', 'w_last_interp(&self.interpol_stack)')
     sn.rw('R8', r'char::from_u32\(\s*u32::from_str_radix\(&hex, 16\)\.unwrap\(\)\s*\)\s*\.unwrap\(\)', 'w_hex_to_char(&hex)')
     sn.rw('R7', r'\bfor _ in 0\.\.2\b', 'for verif_i in 0usize..2')
+    # --- number / symbol / indentation lexers and Iterator::next
+    is_some_and_r4(sn)
+    sn.rw('R4', r'self\s*\.peek_cur_ch\(\)\s*\.map\(\|t\| t\.is_ascii_digit\(\)\)\s*\.unwrap_or\(false\)', '(match self.peek_cur_ch() { Some(t) => t.is_ascii_digit(), None => false })')
+    sn.rw('R4', r'\b(\w+)\.is_ascii_digit\(\)', r'w_is_ascii_digit(\1)')
+    sn.rw('R4', r'\b(\w+)\.is_xid_start\(\)', r'w_is_xid_start(\1)')
+    sn.rw('R4', r'\b(\w+)\.is_xid_continue\(\)', r'w_is_xid_continue(\1)')
+    sn.rw('R4', r"\('０'\.\.='９'\)\.contains\(&c\)", "('０' <= c && c <= '９')", code_only=False)
+    sn.rw('R4', r"matches!\(cur, '0'\.\.='7'\)", "('0' <= cur && cur <= '7')", code_only=False)
+    sn.rw('R9', r'\b(first_ch|invalid)\.to_string\(\)', r'w_char_to_string(\1)')
+    sn.rw('R9', r'self\.peek_cur_ch\(\)\.unwrap\(\)\.to_string\(\)', 'w_char_to_string(self.peek_cur_ch().unwrap())')
+    sn.rw('R4', r'\bnum == "0"', 'w_str_eq_lit(&num, "0")', code_only=False)
+    sn.rw('R4', r"\bnum\.starts_with\('-'\)", "w_starts_with_char(&num, '-')", code_only=False)
+    sn.rw('R4', r'Self::is_zero\(&num\)', 'w_is_zero(&num)')
+    sn.rw('R9', r'&\(num \+ "_"\)', '&w_concat_lit(num, "_", Ghost(1))', code_only=False)
+    sn.rw('R4', r'\b(spaces|cont)\.is_empty\(\)', r'w_string_is_empty(&\1)')
+    sn.rw('R4', r'\bspaces\.len\(\)', 'w_spaces_len(&spaces)')
+    sn.rw('R9', r'&" "\.repeat\(indent_len\)', '&w_repeat_space(indent_len)', code_only=False)
+    sn.rw('R4', r'self\.enclosure_level\.saturating_sub\(1\)', 'w_sat_sub(self.enclosure_level, 1)')
+    sn.rw('R4', r'(?<![\w.])(\w+)\.saturating_sub\((\w+)\)', r'w_sat_sub(\1, \2)')
+    # mutable by-value parameter -> immutable parameter + `let mut` (Verus has no `mut` parameters)
+    sn.rw('R7', r'fn (\w+)\(&mut self, mut num: String\)([^{]*)\{', r'fn \1(&mut self, num_0: String)\2{\n        let mut num = num_0;')
+    # string literals passed where the contract needs their length
+    sn.rw('R9', r'(self\.(?:accept|deny_feature)\(\s*\w+,\s*|self\.deny_feature\(|self\.emit_singleline_token\(\s*\w+,\s*)"((?:[^"\\]|\\.)*)"', lambda m: '%sw_lit("%s", Ghost(%d))' % (m.group(1), m.group(2), lit_len(m.group(2))), code_only=False)
+    sn.rw('R9', r'self\.lex_ratio\("\."\.into\(\)\)', 'self.lex_ratio(w_lit_string(".", Ghost(1)))', code_only=False)
     rules.diagnostics(sn)
+    sn.rw('R3', r'"(?:[^"\\]|\\.)*"\s*\.into\(\)', 'ext_msg()', code_only=False)
+    sn.rw('R3', r'\bext_msg\(\)\s*\.into\(\)', 'ext_msg()')
 
 
 def build(run):
@@ -92,14 +132,31 @@ impl Token {
     ensures res.kind == kind, res.content@ == cont@, res.lineno == lineno, res.col_begin == col_begin,
         res.col_end == col_begin + cont@.len(),   // a token ends where its text ends""")
     unit.add(tn)
+    for (f, spec) in (('is', "ensures kind is EOF ==> res == (self.kind is EOF), kind is BOF ==> res == (self.kind is BOF), kind is Newline ==> res == (self.kind is Newline), kind is Dedent ==> res == (self.kind is Dedent),"), ('category', ""), ('category_is', "")):
+        tf = Snippet(tsrc.fn(f, impl=r'Token'), 'Token::' + f)
+        rules.strip_vis_attrs(tf)
+        # derived PartialEq on a fieldless enum (deriving Structural on the 100-variant TokenKind makes every query 5x slower)
+        tf.rw('R4', r'self\.kind == kind', 'w_kind_eq(self.kind, kind)')
+        tf.rw('R4', r'self\.kind\.category\(\) == category', 'w_cat_eq(self.kind.category(), category)')
+        tf.contract(spec)
+        unit.add(tf)
     unit.raw("}\n")
-    for e in ('Quote', 'Interpolation'):
+    tc = Snippet(tsrc.item('enum', 'TokenCategory'), 'enum TokenCategory')
+    rules.erase_enum_payloads(tc, set(), derives='#[derive(Clone, Copy, PartialEq, Eq)]\n')
+    unit.add(tc)
+    unit.raw("impl TokenKind {\n")
+    kc = Snippet(tsrc.fn('category', impl=r'TokenKind'), 'TokenKind::category')
+    rules.strip_vis_attrs(kc)
+    kc.contract("")   # total; C08 does not depend on the content of the category table
+    unit.add(kc)
+    unit.raw("}\n")
+    for e in ('OpFix', 'Quote', 'Interpolation'):
         en = Snippet(src.item('enum', e), 'enum ' + e)
         rules.erase_enum_payloads(en, {'Quote'}, derives='#[derive(Clone, Copy, PartialEq, Eq)]\n')
         unit.add(en)
     unit.raw("impl Quote {\n")
     for f, spec in (('quotes', "ensures res@.len() == 3,"), ('char', "ensures res == (if *self is Single { '\\'' } else { '\"' }), res != '\\n',"),
-                    ('token_kind', "")):
+                    ('token_kind', "ensures plain_kind(res),")):
         q = Snippet(src.fn(f, impl=r'Quote'), 'Quote::' + f)
         rules.strip_vis_attrs(q)
         q.contract(spec)
@@ -107,36 +164,60 @@ impl Token {
             q.body_prologue("proof { reveal_strlit(\"'''\"); reveal_strlit(\"\\\"\\\"\\\"\"); }")
         unit.add(q)
     unit.raw("}\n")
+    # the two constructors are not brought into Verus (Input, normalize_newline, chars().collect()); their struct literals are checked
+    # textually against `initial_state` of the prelude (a changed initial value is a lost anchor, exit 2)
+    for ctor in ('new', 'from_str'):
+        ct = ' '.join(src.fn(ctor, impl=r'Lexer').text.split())
+        for frag in ('indent_stack: vec![]', 'enclosure_level: 0', 'cursor: 0', 'prev_token: Token::new(TokenKind::BOF, "", 0, 0)', 'lineno_token_starts: 0',
+                     'col_token_starts: 0', 'line_start_cursor: 0', 'interpol_stack: vec![Interpolation::Not]'):
+            if frag not in ct:
+                raise LostAnchor("Lexer::%s: initial value `%s` not found (initial_state of the prelude no longer describes the constructor)" % (ctor, frag))
     lx = Snippet(src.item('struct', 'Lexer'), 'struct Lexer')
     keep_struct_fields(lx, {'Vec<char>', 'Vec<usize>', 'usize', 'Token', 'u32', 'Vec<Interpolation>'}, 'Lexer')
     unit.add(lx)
     unit.raw("impl Lexer {\n")
 
-    def add(fname, spec, label=None, post=None, loops=(), hints=None):
-        sn = Snippet(src.fn(fname, impl=r'Lexer'), 'Lexer::' + fname)
+    def add(fname, spec, label=None, post=None, loops=(), hints=None, impl=r'Lexer', probe=False):
+        sn = Snippet(src.fn(fname, impl=impl), 'Lexer::' + fname)
         lexer_rewrites(sn)
         if post:
             post(sn)
         sn.contract(spec)
         if hints:
             hints(sn)
+        FUEL = "proof { reveal_with_fuel(no_nl, 6); }"   # up to five chars are consumed between two invariant points (`\\xHH`)
         for (k, inv) in loops:
-            sn.loop_spec(k, inv)
+            sn.loop_spec(k, inv, body_prologue=FUEL)
+        if 'fn is_' not in sn.text[:40] and 'peek_' not in fname and fname not in ('consume', 'accept', 'deny_feature', 'op_fix', 'prev_can_be_receiver'):
+            sn.body_prologue(FUEL)
         unit.add(sn)
+        if probe:
+            # vacuity probe: the same text under the same precondition with `ensures false` must be rejected
+            pr = Snippet(src.fn(fname, impl=impl), 'vacuity-probe Lexer::' + fname)
+            lexer_rewrites(pr)
+            if post:
+                post(pr)
+            pr.rename_fn(fname + '__vacuity_probe')
+            pr.contract(spec.rstrip() + "\n        false,")
+            for (k, inv) in loops:
+                pr.loop_spec(k, inv)
+            unit.add(pr)
+            run.extra.setdefault("vacuity_probe_labels", []).append(pr.label)
         return sn
 
-    add('is_bidi', "ensures res ==> c != '\\n',")
+    add('is_bidi', "ensures res ==> c != '\\n' && c != '#' && c != ' ',")
     add('consume', """requires old(self).cursor < usize::MAX,
     ensures final(self).cursor == old(self).cursor + 1,
         res == (if old(self).cursor < old(self).chars@.len() { Some(old(self).chars@[old(self).cursor as int]) } else { None::<char> }),
         same_source(*final(self), *old(self)), final(self).col_token_starts == old(self).col_token_starts, final(self).lineno_token_starts == old(self).lineno_token_starts,
-        final(self).line_start_cursor == old(self).line_start_cursor, final(self).interpol_stack@ == old(self).interpol_stack@,""")
+        final(self).line_start_cursor == old(self).line_start_cursor, final(self).interpol_stack@ == old(self).interpol_stack@, final(self).prev_token == old(self).prev_token,""")
     add('peek_prev_prev_ch', "ensures res == (if self.cursor >= 2 && self.cursor - 2 < self.chars@.len() { Some(self.chars@[self.cursor - 2]) } else { None::<char> }),")
     add('peek_prev_ch', "ensures res == (if self.cursor >= 1 && self.cursor - 1 < self.chars@.len() { Some(self.chars@[self.cursor - 1]) } else { None::<char> }),")
     add('peek_cur_ch', "ensures res == (if self.cursor < self.chars@.len() { Some(self.chars@[self.cursor as int]) } else { None::<char> }),")
     add('peek_next_ch', "requires self.cursor < usize::MAX,\n    ensures res == (if self.cursor + 1 < self.chars@.len() { Some(self.chars@[self.cursor + 1]) } else { None::<char> }),")
     EMIT_FRAME = """same_source(*final(self), *old(self)), final(self).cursor == old(self).cursor, final(self).lineno_token_starts == old(self).lineno_token_starts,
-        final(self).line_start_cursor == old(self).line_start_cursor, final(self).interpol_stack@ == old(self).interpol_stack@,"""
+        final(self).line_start_cursor == old(self).line_start_cursor, final(self).interpol_stack@ == old(self).interpol_stack@,
+        final(self).prev_token.kind == kind,"""
 
     def emit_post(sn):
         sn.rw('R4', r'self\.str_cache\.get\(cont\)', 'w_cache_get(&self.str_cache, cont)', expect=1)
@@ -155,44 +236,50 @@ impl Token {
     ensures final(self).col_token_starts == old(self).cursor - old(self).line_start_cursor,
         same_source(*final(self), *old(self)), final(self).cursor == old(self).cursor, final(self).lineno_token_starts == old(self).lineno_token_starts,
         final(self).line_start_cursor == old(self).line_start_cursor, final(self).interpol_stack@ == old(self).interpol_stack@,
+        final(self).prev_token == old(self).prev_token,
         lexer_wf(*final(self)), line_fresh(*old(self)) ==> pos_ok(*final(self)),""")
-    FRAME = """same_source(*final(self), *old(self)), final(self).cursor >= old(self).cursor, lexer_wf(*final(self)),"""
-    add('invalid_unicode_character', """requires lexer_wf(*old(self)), old(self).col_token_starts + s@.len() <= 0x7FFF_FFFF, old(self).lineno_token_starts < u32::MAX,
+    FRAME = """same_source(*final(self), *old(self)), final(self).cursor >= old(self).cursor, lexer_wf(*final(self)),
+        final(self).cursor <= final(self).chars@.len() + 1,"""
+    PLAIN = " plain_kind(final(self).prev_token.kind), res matches Ok(t) ==> t.kind == final(self).prev_token.kind,"
+    add('invalid_unicode_character', """requires lexer_wf(*old(self)), old(self).cursor <= old(self).chars@.len() + 1, old(self).col_token_starts + s@.len() <= 0x7FFF_FFFF, old(self).lineno_token_starts < u32::MAX,
     ensures %s final(self).cursor == old(self).cursor, final(self).interpol_stack@ == old(self).interpol_stack@, final(self).line_start_cursor == old(self).line_start_cursor,
-        final(self).lineno_token_starts == old(self).lineno_token_starts,""" % FRAME)
+        final(self).lineno_token_starts == old(self).lineno_token_starts, final(self).prev_token.kind is Illegal,
+        final(self).col_token_starts == old(self).col_token_starts + s@.len(),""" % FRAME)
 
     def comment_post(sn):
         sn.rw('R4', r"self\.peek_cur_ch\(\)\.map\(\|cur\| cur != '\\n'\)\.unwrap_or\(false\)",
               lambda m: "(match self.peek_cur_ch() { Some(cur) => cur != '\\n', None => false })", expect=1)
-    add('lex_comment', """requires lexer_wf(*old(self)), old(self).cursor <= old(self).chars@.len(), old(self).col_token_starts <= 0x1FFF_FFFF, old(self).lineno_token_starts < u32::MAX,
+    add('lex_comment', """requires lexer_wf(*old(self)), old(self).cursor < old(self).chars@.len(), old(self).chars@[old(self).cursor as int] == '#', old(self).col_token_starts <= 0x1FFF_FFFF, old(self).lineno_token_starts < u32::MAX,
     ensures %s final(self).interpol_stack@ == old(self).interpol_stack@, final(self).line_start_cursor == old(self).line_start_cursor,
         final(self).lineno_token_starts == old(self).lineno_token_starts,
         // a comment runs up to, not including, the end of the line: no newline is swallowed
-        forall|k: int| old(self).cursor <= k < final(self).cursor ==> k < final(self).chars@.len() && final(self).chars@[k] != '\\n',
+        line_fresh(*old(self)) ==> line_fresh(*final(self)),   // no line break is swallowed
         res is Ok ==> (final(self).cursor == final(self).chars@.len() || final(self).chars@[final(self).cursor as int] == '\\n'),
-        res is Ok ==> final(self).col_token_starts == old(self).col_token_starts,""" % FRAME, post=comment_post, loops=[(0, """invariant
+        final(self).cursor > old(self).cursor,   // progress: at least the `#` is consumed
+        res is Ok ==> final(self).col_token_starts == old(self).col_token_starts && final(self).prev_token == old(self).prev_token,
+        res is Err ==> plain_kind(final(self).prev_token.kind) && final(self).col_token_starts == old(self).col_token_starts + (final(self).cursor - old(self).cursor),""" % FRAME, post=comment_post, loops=[(0, """invariant
             lexer_wf(*self), same_source(*self, *old(self)), self.cursor >= old(self).cursor, self.cursor <= self.chars@.len(),
             self.interpol_stack@ == old(self).interpol_stack@, self.line_start_cursor == old(self).line_start_cursor,
             self.lineno_token_starts == old(self).lineno_token_starts, self.col_token_starts == old(self).col_token_starts,
             old(self).col_token_starts <= 0x1FFF_FFFF, old(self).lineno_token_starts < u32::MAX,
-            s@.len() == self.cursor - old(self).cursor,
-            forall|k: int| old(self).cursor <= k < self.cursor ==> k < self.chars@.len() && self.chars@[k] != '\\n',
+            s@.len() == self.cursor - old(self).cursor, self.prev_token == old(self).prev_token, old(self).chars@[old(self).cursor as int] == '#',
+            line_fresh(*old(self)) ==> line_fresh(*self),
         decreases self.chars@.len() - self.cursor,""")])
 
 
     add('lex_raw_ident', """requires lexer_wf(*old(self)), old(self).cursor >= 1, old(self).cursor <= old(self).chars@.len(), old(self).col_token_starts <= 0x1FFF_FFFF, old(self).lineno_token_starts < u32::MAX,
     ensures %s final(self).interpol_stack@ == old(self).interpol_stack@, final(self).line_start_cursor == old(self).line_start_cursor,
         final(self).lineno_token_starts == old(self).lineno_token_starts,
-        forall|k: int| old(self).cursor <= k < final(self).cursor ==> k < final(self).chars@.len() && final(self).chars@[k] != '\\n',
+        line_fresh(*old(self)) ==> line_fresh(*final(self)),   // no line break is swallowed
         // the token is reported where it begins and the column advances by exactly the source text consumed (opening quote included)
-        res matches Ok(t) ==> t.col_begin == old(self).col_token_starts && t.lineno == old(self).lineno_token_starts + 1
-            && final(self).col_token_starts == old(self).col_token_starts + 1 + (final(self).cursor - old(self).cursor),""" % FRAME, loops=[(0, """invariant
+        final(self).col_token_starts == old(self).col_token_starts + 1 + (final(self).cursor - old(self).cursor),
+        res matches Ok(t) ==> t.col_begin == old(self).col_token_starts && t.lineno == old(self).lineno_token_starts + 1,""" % (FRAME + PLAIN), loops=[(0, """invariant
             lexer_wf(*self), same_source(*self, *old(self)), self.cursor >= old(self).cursor, self.cursor <= self.chars@.len(),
             self.interpol_stack@ == old(self).interpol_stack@, self.line_start_cursor == old(self).line_start_cursor,
             self.lineno_token_starts == old(self).lineno_token_starts, self.col_token_starts == old(self).col_token_starts,
             old(self).col_token_starts <= 0x1FFF_FFFF, old(self).lineno_token_starts < u32::MAX,
             s@.len() == 1 + (self.cursor - old(self).cursor),
-            forall|k: int| old(self).cursor <= k < self.cursor ==> k < self.chars@.len() && self.chars@[k] != '\\n',
+            line_fresh(*old(self)) ==> line_fresh(*self),
         decreases self.chars@.len() - self.cursor,""")])
 
     STR_PRE = "requires lexer_wf(*old(self)), old(self).cursor >= 1, old(self).cursor <= old(self).chars@.len(), old(self).col_token_starts <= 0x1FFF_FFFF, old(self).lineno_token_starts < u32::MAX - 2,"
@@ -200,15 +287,15 @@ impl Token {
     add('lex_single_str_', STR_PRE + """
     ensures %s final(self).line_start_cursor == old(self).line_start_cursor, final(self).lineno_token_starts == old(self).lineno_token_starts,
         final(self).interpol_stack@.len() >= 1,
-        res is Ok ==> forall|k: int| old(self).cursor <= k < final(self).cursor ==> k < final(self).chars@.len() && final(self).chars@[k] != '\\n',
-        res matches Ok(t) ==> t.col_begin == old(self).col_token_starts && t.lineno == old(self).lineno_token_starts + 1,""" % FRAME,
+        res is Ok ==> (line_fresh(*old(self)) ==> line_fresh(*final(self))),
+        res matches Ok(t) ==> t.col_begin == old(self).col_token_starts && t.lineno == old(self).lineno_token_starts + 1,""" % (FRAME + PLAIN),
         loops=[(0, """invariant
             lexer_wf(*self), same_source(*self, *old(self)), self.cursor >= old(self).cursor, self.cursor <= self.chars@.len(),
             self.line_start_cursor == old(self).line_start_cursor, self.lineno_token_starts == old(self).lineno_token_starts,
             self.col_token_starts == old(self).col_token_starts, self.interpol_stack@ == old(self).interpol_stack@,
             old(self).col_token_starts <= 0x1FFF_FFFF, old(self).lineno_token_starts < u32::MAX - 2,
             s@.len() <= 1 + 2 * (self.cursor - old(self).cursor),
-            forall|k: int| old(self).cursor <= k < self.cursor ==> k < self.chars@.len() && self.chars@[k] != '\\n',
+            line_fresh(*old(self)) ==> line_fresh(*self),
         decreases self.chars@.len() - self.cursor,"""),
                (1, """invariant
                                     lexer_wf(*self), same_source(*self, *old(self)), self.cursor >= old(self).cursor + 2, self.cursor <= self.chars@.len(),
@@ -218,13 +305,13 @@ impl Token {
                                     hex@.len() == verif_i, verif_i <= 2,
                                     self.cursor == verif_c0 + 2 + verif_i, verif_c0 >= old(self).cursor,
                                     s@.len() <= 1 + 2 * (verif_c0 - old(self).cursor),
-                                    forall|k: int| old(self).cursor <= k < self.cursor ==> k < self.chars@.len() && self.chars@[k] != '\\n',""")], hints=SNAP)
+                                    line_fresh(*old(self)) ==> line_fresh(*self),""")], hints=SNAP)
     add('lex_single_str', STR_PRE + """
-    ensures %s final(self).line_start_cursor == old(self).line_start_cursor, final(self).lineno_token_starts == old(self).lineno_token_starts,
+    ensures %s final(self).col_token_starts == final(self).cursor - final(self).line_start_cursor, final(self).line_start_cursor == old(self).line_start_cursor, final(self).lineno_token_starts == old(self).lineno_token_starts,
         final(self).interpol_stack@.len() >= 1,
         // after a single-line string literal (whatever escape sequences it contains) the next token's column is exact
         (res is Ok && line_fresh(*old(self))) ==> pos_ok(*final(self)),
-        res matches Ok(t) ==> t.col_begin == old(self).col_token_starts && t.lineno == old(self).lineno_token_starts + 1,""" % FRAME)
+        res matches Ok(t) ==> t.col_begin == old(self).col_token_starts && t.lineno == old(self).lineno_token_starts + 1,""" % (FRAME + PLAIN))
     ML_PRE = "requires lexer_wf(*old(self)), old(self).cursor >= 3, old(self).cursor <= old(self).chars@.len(), old(self).col_token_starts <= 0x1FFF_FFFF, old(self).lineno_token_starts < 0x1FFF_FFFF,"
     ML_INV = """invariant
             lexer_wf(*self), same_source(*self, *old(self)), self.cursor >= old(self).cursor, self.cursor <= self.chars@.len(),
@@ -236,14 +323,14 @@ impl Token {
             line_fresh(*old(self)) ==> line_fresh(*self),
         decreases self.chars@.len() - self.cursor,"""
     add('lex_multi_line_str_', ML_PRE + """
-    ensures %s final(self).interpol_stack@.len() >= 1,
+    ensures %s final(self).lineno_token_starts >= old(self).lineno_token_starts, final(self).interpol_stack@.len() >= 1,
         (res is Ok && line_fresh(*old(self))) ==> line_fresh(*final(self)),
-        res matches Ok(t) ==> t.col_begin == old(self).col_token_starts,""" % FRAME, loops=[(0, ML_INV)])
+        res matches Ok(t) ==> t.col_begin == old(self).col_token_starts,""" % (FRAME + PLAIN), loops=[(0, ML_INV)])
     add('lex_multi_line_str', ML_PRE + """
-    ensures %s final(self).interpol_stack@.len() >= 1,
+    ensures %s final(self).col_token_starts == final(self).cursor - final(self).line_start_cursor, final(self).lineno_token_starts >= old(self).lineno_token_starts, final(self).interpol_stack@.len() >= 1,
         // after a multi-line string the next token's column counts from the start of the string's LAST line
         (res is Ok && line_fresh(*old(self))) ==> pos_ok(*final(self)),
-        res matches Ok(t) ==> t.col_begin == old(self).col_token_starts,""" % FRAME)
+        res matches Ok(t) ==> t.col_begin == old(self).col_token_starts,""" % (FRAME + PLAIN))
     IM_PRE = "requires lexer_wf(*old(self)), old(self).cursor >= 1, old(self).cursor <= old(self).chars@.len(), old(self).col_token_starts <= 0x1FFF_FFFF, old(self).lineno_token_starts < 0x1FFF_FFFF,"
     IM_INV = """invariant
             lexer_wf(*self), same_source(*self, *old(self)), self.cursor >= old(self).cursor, self.cursor <= self.chars@.len(),
@@ -255,13 +342,221 @@ impl Token {
             line_fresh(*old(self)) ==> line_fresh(*self),
         decreases self.chars@.len() - self.cursor,"""
     add('lex_interpolation_mid_', IM_PRE + """
-    ensures %s
-        (res is Ok && line_fresh(*old(self))) ==> line_fresh(*final(self)),""" % FRAME, loops=[(0, IM_INV)])
+    ensures %s final(self).lineno_token_starts >= old(self).lineno_token_starts,
+        (res is Ok && line_fresh(*old(self))) ==> line_fresh(*final(self)),""" % (FRAME + PLAIN), loops=[(0, IM_INV)])
     add('lex_interpolation_mid', IM_PRE + """
-    ensures %s
+    ensures %s final(self).col_token_starts == final(self).cursor - final(self).line_start_cursor, final(self).lineno_token_starts >= old(self).lineno_token_starts,
         // after the tail of an interpolated string the next token's column is exact
-        (res is Ok && line_fresh(*old(self))) ==> pos_ok(*final(self)),""" % FRAME)
+        (res is Ok && line_fresh(*old(self))) ==> pos_ok(*final(self)),""" % (FRAME + PLAIN))
+    # ---------------------------------------------------------------- number and name lexers
+    # A single-line token lexer is entered with `n0` chars of the token already consumed and collected; it consumes more chars of the
+    # same line and emits exactly the collected text: the column advances by the source text consumed, no line break is swallowed.
+    def line_tok(n0, pre_extra=''):
+        pre = ("requires lexer_wf(*old(self)), old(self).cursor <= old(self).chars@.len(), "
+               "old(self).col_token_starts + 2 * (%s) <= 2 * old(self).cursor, %s" % (n0, pre_extra))
+        post = """
+    ensures %s final(self).interpol_stack@ == old(self).interpol_stack@, final(self).line_start_cursor == old(self).line_start_cursor,
+        final(self).lineno_token_starts == old(self).lineno_token_starts,
+        final(self).col_token_starts == old(self).col_token_starts + (%s) + (final(self).cursor - old(self).cursor),
+        final(self).cursor <= final(self).chars@.len(),
+        line_fresh(*old(self)) ==> line_fresh(*final(self)),   // no line break is swallowed
+        res matches Ok(t) ==> t.col_begin == old(self).col_token_starts && t.lineno == old(self).lineno_token_starts + 1,""" % (FRAME + PLAIN, n0)
+        return pre + post
+
+    def line_inv(n0, var='num'):
+        return """invariant
+            lexer_wf(*self), same_source(*self, *old(self)), self.cursor >= old(self).cursor, self.cursor <= self.chars@.len(),
+            self.interpol_stack@ == old(self).interpol_stack@, self.line_start_cursor == old(self).line_start_cursor,
+            self.lineno_token_starts == old(self).lineno_token_starts, self.col_token_starts == old(self).col_token_starts,
+            self.prev_token == old(self).prev_token,
+            old(self).col_token_starts + 2 * (%s) <= 2 * old(self).cursor,
+            %s@.len() == (%s) + (self.cursor - old(self).cursor),
+            line_fresh(*old(self)) ==> line_fresh(*self),
+        decreases self.chars@.len() - self.cursor,""" % (n0, var, n0)
+
+    CUR_NOT_NL = "old(self).cursor < old(self).chars@.len(), old(self).chars@[old(self).cursor as int] != '\\n',"
+    add('is_valid_start_symbol_ch', "ensures res ==> c != '\\n' && c != ' ',")
+    add('is_valid_continue_symbol_ch', "ensures res ==> c != '\\n' && c != ' ',")
+    add('lex_exponent', line_tok('mantissa@.len()', CUR_NOT_NL), loops=[(0, line_inv('mantissa@.len()') + "\n")],
+        hints=lambda sn: None)
+    add('lex_ratio', line_tok('intpart_and_point@.len()'), loops=[(0, line_inv('intpart_and_point@.len()'))])
+    add('lex_bin', line_tok('num_0@.len()'), loops=[(0, line_inv('num_0@.len()'))])
+    add('lex_oct', line_tok('num_0@.len()'), loops=[(0, line_inv('num_0@.len()'))])
+    add('lex_hex', line_tok('num_0@.len()'), loops=[(0, line_inv('num_0@.len()'))])
+    add('lex_num_dot', line_tok('num_0@.len()', CUR_NOT_NL))
+    add('lex_num', line_tok('1'), loops=[(0, line_inv('1'))])
+
+    def symbol_post(sn):
+        # the keyword table (match on str literals) is outside Verus: replaced by a stub that may return any non-layout kind (R2-style erasure)
+        mask = make_mask(sn.text)
+        m = re.search(r'let kind = match &cont\[\.\.\] \{', mask)
+        if not m:
+            raise LostAnchor("lex_symbol: keyword table `let kind = match &cont[..] {` not found")
+        cb = match_close(mask, m.end() - 1)
+        end = sn.text.index(';', cb) + 1
+        sn.replace_range('R2', m.start(), end, 'let kind = w_symbol_kind(&cont);', "keyword table `match &cont[..] {..}` -> w_symbol_kind(&cont) (unverified, any plain kind)")
+    add('lex_symbol', line_tok('1'), post=symbol_post, loops=[(0, line_inv('1', 'cont'))])
+    # ---------------------------------------------------------------- comments, indentation, the iterator step
+    add('accept', """requires old(self).col_token_starts + cont@.len() <= 0x7FFF_FFFF, old(self).lineno_token_starts < u32::MAX,
+    ensures res matches Some(Ok(t)) && t.kind == kind && t.content@ == cont@ && t.lineno == old(self).lineno_token_starts + 1 && t.col_begin == old(self).col_token_starts,
+        final(self).col_token_starts == old(self).col_token_starts + cont@.len(),
+        %s""" % EMIT_FRAME)
+    add('deny_feature', """requires old(self).col_token_starts + cont@.len() <= 0x7FFF_FFFF, old(self).lineno_token_starts < u32::MAX,
+    ensures res matches Some(Err(_)), final(self).prev_token.kind is Illegal,
+        final(self).col_token_starts == old(self).col_token_starts + cont@.len(),
+        same_source(*final(self), *old(self)), final(self).cursor == old(self).cursor, final(self).lineno_token_starts == old(self).lineno_token_starts,
+        final(self).line_start_cursor == old(self).line_start_cursor, final(self).interpol_stack@ == old(self).interpol_stack@,""")
+    add('op_fix', "")
+    add('prev_can_be_receiver', "")
+    add('lex_multi_line_comment', """requires lexer_wf(*old(self)), old(self).cursor < old(self).chars@.len(), old(self).chars@[old(self).cursor as int] == '#', old(self).col_token_starts <= 2 * old(self).cursor,
+    ensures %s final(self).interpol_stack@ == old(self).interpol_stack@,
+        final(self).col_token_starts <= 2 * final(self).cursor, final(self).cursor > old(self).cursor,
+        final(self).lineno_token_starts >= old(self).lineno_token_starts,
+        res is Ok ==> final(self).prev_token == old(self).prev_token && final(self).cursor <= final(self).chars@.len() && (line_fresh(*old(self)) ==> line_fresh(*final(self))),
+        res is Err ==> plain_kind(final(self).prev_token.kind),""" % FRAME, loops=[(0, """invariant
+            lexer_wf(*self), same_source(*self, *old(self)), self.cursor >= old(self).cursor, self.cursor <= self.chars@.len(),
+            self.interpol_stack@ == old(self).interpol_stack@, self.prev_token == old(self).prev_token,
+            old(self).col_token_starts <= 2 * old(self).cursor,
+            self.col_token_starts + 2 * s@.len() <= 2 * self.cursor,
+            self.lineno_token_starts >= old(self).lineno_token_starts,
+            -(self.cursor - old(self).cursor) <= nest_level <= self.cursor - old(self).cursor, old(self).chars@[old(self).cursor as int] == '#',
+            line_fresh(*old(self)) ==> (line_fresh(*self) || self.cursor >= self.chars@.len()),
+        ensures self.cursor >= self.chars@.len(),   // the loop is left only at the end of the text
+        decreases self.chars@.len() - self.cursor,""")])
+
+    def indent_post(sn):
+        # the fold with a closure that captures mutable state is outside Verus: replaced by a stub (nothing assumed except: the sum over an empty stack is 0)
+        mask = make_mask(sn.text)
+        a = re.search(r'let mut is_valid_dedent = false;', mask)
+        b = re.search(r'let sum_indent = self\.indent_stack\.iter\(\)\.fold\(0, calc_indent_and_validate\);', mask)
+        if not a or not b or b.start() < a.start():
+            raise LostAnchor("lex_indent_dedent: fold over the indent stack not found")
+        sn.replace_range('R2', a.start(), b.end(), 'let (sum_indent, is_valid_dedent) = w_fold_indents(&self.indent_stack, spaces_len);',
+                         "closure-fold over indent_stack (is_valid_dedent / sum_indent) -> w_fold_indents (unverified stub)")
+        sn.rw('R4', r'match sum_indent\.cmp\(&spaces_len\) \{', 'match w_cmp_usize(sum_indent, spaces_len) {', expect=1)
+    ALL_SPACES = "forall|i: int| 0 <= i < spaces@.len() ==> spaces@[i] == ' '"
+    add('lex_indent_dedent', """requires lexer_wf(*old(self)), %s,
+        old(self).line_start_cursor + spaces@.len() <= old(self).cursor, old(self).lineno_token_starts + spaces@.len() <= old(self).cursor,
+        old(self).enclosure_level + spaces@.len() <= old(self).cursor,
+        old(self).col_token_starts + 2 * spaces@.len() <= 2 * old(self).cursor,
+        old(self).indent_stack@.len() < old(self).lineno_token_starts,
+        old(self).col_token_starts == 0 || old(self).cursor - spaces@.len() > old(self).chars@.len(),
+    ensures final(self).chars@ == old(self).chars@, final(self).interpol_stack@ == old(self).interpol_stack@, final(self).enclosure_level == old(self).enclosure_level,
+        final(self).lineno_token_starts == old(self).lineno_token_starts, final(self).line_start_cursor == old(self).line_start_cursor,
+        // same indentation: nothing is emitted, the column moves past the spaces
+        res is None ==> final(self).col_token_starts == old(self).col_token_starts + spaces@.len() && final(self).cursor == old(self).cursor
+            && final(self).indent_stack@ == old(self).indent_stack@ && final(self).prev_token == old(self).prev_token,
+        res matches Some(r) ==> ({
+            // indentation deeper than CPython allows: an error, no level is opened
+            ||| (r is Err && final(self).cursor == old(self).cursor && final(self).indent_stack@ == old(self).indent_stack@
+                 && final(self).col_token_starts == old(self).col_token_starts + spaces@.len() && final(self).prev_token.kind is Indent && spaces@.len() >= 1)
+            // deeper: exactly one level is opened and an Indent is emitted
+            ||| (r is Ok && r->Ok_0.kind is Indent && final(self).cursor == old(self).cursor && final(self).indent_stack@.len() == old(self).indent_stack@.len() + 1
+                 && final(self).col_token_starts == old(self).col_token_starts + spaces@.len() && final(self).prev_token.kind is Indent && spaces@.len() >= 1)
+            // shallower: exactly one level is closed, the spaces are given back (they are lexed again for the next level)
+            ||| (final(self).cursor == old(self).cursor - spaces@.len() && final(self).indent_stack@.len() + 1 == old(self).indent_stack@.len()
+                 && final(self).col_token_starts == old(self).col_token_starts && final(self).prev_token.kind is Dedent && (r matches Ok(t) ==> t.kind is Dedent))
+        }),""" % ALL_SPACES, post=indent_post, probe=True)
+    add('lex_space_indent_dedent', """requires next_inv(*old(self)), !(old(self).prev_token.kind is EOF),
+    ensures
+        // no layout token at this point: only spaces were skipped
+        res is None ==> lexer_wf(*final(self)) && same_source(*final(self), *old(self)) && final(self).prev_token == old(self).prev_token
+            && final(self).interpol_stack@ == old(self).interpol_stack@ && final(self).lineno_token_starts == old(self).lineno_token_starts
+            && final(self).line_start_cursor == old(self).line_start_cursor && final(self).cursor >= old(self).cursor
+            && (final(self).cursor == old(self).cursor || final(self).cursor <= final(self).chars@.len())
+            && final(self).col_token_starts == old(self).col_token_starts + (final(self).cursor - old(self).cursor)
+            && (line_fresh(*old(self)) ==> line_fresh(*final(self))),
+        res matches Some(r) ==> step_ok(*old(self), *final(self), r),""", loops=[(0, """invariant
+            lexer_wf(*self), same_source(*self, *old(self)), self.cursor >= old(self).cursor, self.cursor <= self.chars@.len() || self.cursor == old(self).cursor,
+            self.interpol_stack@ == old(self).interpol_stack@, self.line_start_cursor == old(self).line_start_cursor,
+            self.lineno_token_starts == old(self).lineno_token_starts, self.col_token_starts == old(self).col_token_starts,
+            self.prev_token == old(self).prev_token, next_inv(*old(self)),
+            spaces@.len() == self.cursor - old(self).cursor,
+            forall|i: int| 0 <= i < spaces@.len() ==> spaces@[i] == ' ',
+            line_fresh(*old(self)) ==> line_fresh(*self),
+        decreases self.chars@.len() - self.cursor,""")], probe=True)
+    def next_post(sn):
+        sn.rw('R5', r'fn next\(&mut self\) -> Option<Self::Item>', 'fn next(&mut self) -> Option<LexResult<Token>>', expect=1)
+        sn.rw('R4', r'\bop\.insert\(0, \'`\'\);', "w_insert_front(&mut op, '`');", code_only=False, expect=1)
+        sn.rw('R4', r'Self::is_definable_operator\(&op\[\.\.\]\)', 'w_is_definable_operator(&op)', expect=1)
+        sn.rw('R4', r"\bop\.contains\('\+'\)", "w_contains_char(&op, '+')", code_only=False, expect=1)
+    NEXT_INV = """invariant
+                next_inv(*self), self.chars@ == old(self).chars@, self.indent_stack@ == old(self).indent_stack@,
+                self.cursor >= old(self).cursor, self.prev_token.kind == old(self).prev_token.kind,
+                pos_ok(*old(self)) ==> pos_ok(*self),
+            decreases 2 * self.chars@.len() + 6 - self.cursor,"""
+    TICK_INV = """invariant_except_break
+                        self.cursor <= self.chars@.len(), op@.len() == self.cursor - verif_t0,
+                        // positions: either no line break has been consumed, or it is part of the operator text (then the text is not definable)
+                        pos_ok(*old(self)) ==> (no_nl(self.chars@, verif_ls0 as int, self.cursor as int) || verif_nl_at >= 0),
+                        verif_nl_at >= 0 ==> (verif_nl_at < op@.len() && op@[verif_nl_at] == '\\n'),
+                    invariant
+                        lexer_wf(*self), self.chars@ == old(self).chars@, self.indent_stack@ == old(self).indent_stack@, !(old(self).prev_token.kind is EOF),
+                        verif_t0 >= old(self).cursor + 1, verif_t0 <= self.chars@.len(), self.cursor >= verif_t0,
+                        self.col_token_starts == verif_col0, self.line_start_cursor == verif_ls0, self.lineno_token_starts == verif_ln0,
+                        verif_col0 + 2 <= 2 * verif_t0, self.indent_stack@.len() <= self.lineno_token_starts,
+                        pos_ok(*old(self)) ==> (verif_col0 + 1 == verif_t0 - verif_ls0 && line_start_ok(*self)),
+                    ensures
+                        self.cursor <= self.chars@.len() + 1, op@.len() + 1 == self.cursor - verif_t0,
+                    decreases self.chars@.len() + 1 - self.cursor,"""
+    NEXT_SPEC = """requires next_inv(*old(self)),
+    ensures
+        // the stream ends after EOF, and only then
+        res is None <==> old(self).prev_token.kind is EOF,
+        res is None ==> next_inv(*final(self)) && final(self).chars@ == old(self).chars@,
+        // every item: representation invariant kept, progress made, indentation bookkeeping exact, position bookkeeping exact
+        res matches Some(r) ==> step_ok(*old(self), *final(self), r),"""
+    # Iterator::next is one 450-line match: its verification condition is split by ARM GROUPS. Every copy is the same verbatim text with
+    # the same contract; in copy k the arms outside group k keep pattern and guard and get the body `ext_other_copy()` (ensures false:
+    # the path is cut there because it is verified in the copy that keeps the arm). Every arm keeps its body in exactly one copy.
+    base = Snippet(src.fn('next', impl=r'Iterator for Lexer'), 'Lexer::next')
+    lexer_rewrites(base)
+    next_post(base)
+    from vlib.extract import split_match_arms
+    bmask = make_mask(base.text)
+    mm = re.search(r'\breturn match self\.consume\(\) \{', bmask)
+    if not mm:
+        raise LostAnchor("Lexer::next: `return match self.consume() {` not found")
+    ob = mm.end() - 1
+    cb = match_close(bmask, ob)
+    mbody = base.text[ob:cb + 1]
+    pats = [' '.join(mbody[ps:pe].split()) for (ps, pe, bs, be) in split_match_arms(mbody)]
+    if len(set(pats)) != len(pats):
+        raise Undecided("Lexer::next: duplicate arm patterns")
+    GROUP = int(os.environ.get('C08_NEXT_GROUP', '1'))
+    groups = [pats[k:k + GROUP] for k in range(0, len(pats), GROUP)]
+    run.extra["next_arm_groups"] = {"arms": len(pats), "copies": len(groups), "rule": "R2c: every arm of the top-level match keeps its body in exactly one copy"}
+    for gi, grp in enumerate(groups):
+        sn = base.copy('Lexer::next[arms %d-%d: %s]' % (gi * GROUP, gi * GROUP + len(grp) - 1, ' '.join(grp)[:60]))
+        keep = set(grp)
+        sn.erase_arms('R2c', lambda pat: ' '.join(pat.split()) not in keep, stub='ext_other_copy()', match_ordinal=0, drop_guard=False)
+        sn.rename_fn('next__g%d' % gi)
+        sn.kani_attrs('#[verifier::spinoff_prover]')   # own solver process: the copies are checked in parallel
+        sn.contract(NEXT_SPEC)
+        sn.body_prologue("proof { reveal_with_fuel(no_nl, 6); }")
+        loops = [(0, NEXT_INV)]
+        if "Some('`')" in keep:
+            sn.insert_at(r'let mut op = ', "                    let ghost verif_t0 = self.cursor; let ghost verif_col0 = self.col_token_starts; let ghost verif_ls0 = self.line_start_cursor; let ghost verif_ln0 = self.lineno_token_starts; let ghost mut verif_nl_at: int = -1;", where='before')
+            sn.insert_at(r'op\.push\(c\);', "                        proof { if c == '\\n' && verif_nl_at < 0 { verif_nl_at = op@.len() - 1; } }", where='after')
+            loops.append((1, TICK_INV))
+        for (k, inv) in loops:
+            sn.loop_spec(k, inv, body_prologue="proof { reveal_with_fuel(no_nl, 6); }")
+        unit.add(sn)
+        if gi == len(groups) - 1:
+            # vacuity probe: the same text under the same precondition with `ensures false` must be rejected
+            pr = base.copy('vacuity-probe Lexer::next')
+            pr.erase_arms('R2c', lambda pat: ' '.join(pat.split()) not in keep, stub='ext_other_copy()', match_ordinal=0, drop_guard=False)
+            pr.rename_fn('next__vacuity_probe')
+            pr.contract(NEXT_SPEC + "\n        false,")
+            pr.loop_spec(0, NEXT_INV)
+            unit.add(pr)
+            run.extra.setdefault("vacuity_probe_labels", []).append(pr.label)
+    unit.raw("}\nimpl Interpolation {\n")
+    add('is_in', "ensures res == !(*self is Not),", impl=r'Interpolation')
     unit.raw("}\n} // verus!\n")
+    run.sample({"function": "Iterator::next for Lexer (36 arm-group copies)", "requires": "next_inv(old)", "ensures": "None exactly after EOF; Some(r): next_inv(final), measure(final) < measure(old), Ok(t): Indent/Dedent/EOF vs. indent stack exact, pos_ok(old) && cursor inside the text ==> pos_ok(final)"})
+    run.sample({"function": "Lexer::lex_space_indent_dedent / lex_indent_dedent", "ensures": "None: only spaces skipped, column advanced by them; Some(r): step_ok - deeper opens exactly one level (Indent), shallower closes exactly one and gives the spaces back (Dedent), deeper than 100 is an error"})
+    run.sample({"function": "Lexer::lex_num / lex_num_dot / lex_ratio / lex_exponent / lex_bin / lex_oct / lex_hex / lex_symbol", "ensures": "total, terminate, consume only chars of the current line (line_fresh preserved), the column advances by exactly the source text consumed, the token is reported where it begins"})
     run.sample({"function": "Lexer::lex_interpolation_mid", "ensures": "total (the interpolation stack is never popped below its sentinel), terminates; Ok: the next column is exact"})
     run.sample({"function": "Lexer::lex_multi_line_str", "ensures": "total, terminates; Ok: token reported at its first column; afterwards column == source chars since the start of the last line of the literal"})
     run.sample({"function": "Lexer::lex_single_str", "ensures": "total (no unwrap on None at end of input), terminates; Ok: the token is reported at the column where it begins and the column of the next token equals the source chars consumed on the line, whatever escapes the literal contains"})
@@ -275,5 +570,5 @@ def run(run, replay=None):
     from units.C08 import cex
     run.fallbacks.append(("Lexer", lambda: cex.find(run)))
     unit = build(run)
-    res = unit.run(rlimit=80)
-    run.add_verus(unit, res, cex_finder=lambda f: cex.find(run, f))
+    res = unit.run(rlimit=240, threads=16)
+    run.add_verus(unit, res, cex_finder=lambda f: cex.find(run, f), expect_fail=tuple(run.extra.get('vacuity_probe_labels', ())))
